@@ -150,7 +150,7 @@ def gen_ulam_int(rng):
 def run(ctx):
     quick = ctx.tier == 'quick'
     lib.stage_proof(ctx, PROP_FILES, ['Check/C12.vo'])
-    n = 150 if quick else 2000
+    n = 150 if quick else 4000
     cases, metas = [], []
     for k in range(n):
         cs = ctx.rng.getrandbits(48)
@@ -170,7 +170,7 @@ def run(ctx):
             cases.append(lit)
             metas.append({'desc': {'gen': gen.__name__, 'case_seed': cs, 'case': d}, 'tags': {'op': name}})
     bad = lib.stage_correspondence(ctx, 'ops', REQ, 'check_C12', cases, metas, show_fn='run_C12')
-    n_side = 150 if quick else 3000
+    n_side = 150 if quick else 9000
     if bad:
         n_side *= 5
     for k in range(n_side):
